@@ -1133,6 +1133,12 @@ func (fr *frame) setCounter(li *loopInfo, phis []*ssa.Phi) {
 			candInit = init
 		}
 	}
+	if cand != nil && candInit != 0 && fr.loopUsesRebasedIndex(li, cand, candInit) {
+		// `for i := 1; i < len(xs); i++ { … xs[i-1], xs[i] … }`: the index is re-based, the body works
+		// with i-1; completed iterations = i - 1 is then also "segments processed".
+		li.counter = fmt.Sprintf("(- %s %s)", fr.vals[cand].T, intLit(candInit))
+		return
+	}
 	if cand != nil && candInit == 0 {
 		// Only loops that start at 0: a loop that starts at 1 has usually had its first iteration
 		// peeled off (`acc = xs[0]; for i := 1; ...`), and then "completed iterations" is no longer
@@ -2185,4 +2191,29 @@ func (c *Ctx) bitEq(t types.Type, a, b string) string {
 		}
 	}
 	return eq(a, b)
+}
+
+// loopUsesRebasedIndex: some instruction in the loop computes phi - init (the body addresses the
+// element before the index), which tells a re-based loop from one whose first iteration was peeled.
+func (fr *frame) loopUsesRebasedIndex(li *loopInfo, phi *ssa.Phi, init int64) bool {
+	for b := range li.body {
+		for _, ins := range b.Instrs {
+			bo, ok := ins.(*ssa.BinOp)
+			if !ok || bo.X != ssa.Value(phi) {
+				continue
+			}
+			k, ok := bo.Y.(*ssa.Const)
+			if !ok || k.Value == nil {
+				continue
+			}
+			v, exact := constant.Int64Val(constant.ToInt(k.Value))
+			if !exact {
+				continue
+			}
+			if (bo.Op == token.SUB && v == init) || (bo.Op == token.ADD && v == -init) {
+				return true
+			}
+		}
+	}
+	return false
 }
